@@ -229,3 +229,53 @@ def normalize(line):
 
 def sha(path):
     return hashlib.sha256(open(path, 'rb').read()).hexdigest()[:16]
+
+
+# ------------------------------------------------------------------ extraction cross-check (DESIGN.md 5.5)
+FIXED_SAMPLE = ['x', 'xc000', 'xe000', 'x300700016161626364', 'x3209000161000778797a', 'x100c00044d5154540402000a0000',
+                'x100d00044d5154540502000a000000', 'x2002000005', 'x40020000', 'x4004000110001f', 'x8206000100016100',
+                'x82080001000001610001', 'x900400010080', 'xa2050001000161', 'xb00400010011', 'xe0020000', 'xf0021800',
+                'x30ffffff7f0001', 'x300a0001610626000161000162', 'x82', 'x8280', 'x20020100']
+
+
+def extraction_crosscheck(cases, workdir, limit=120):
+    """evaluate Model/Digest.v on a sample of byte strings inside Coq (vm_compute) and with the extracted
+    OCaml driver; any difference means extraction / driver glue is broken -> Broken"""
+    seen, sample = set(), []
+    for c in list(FIXED_SAMPLE) + [tok for line in cases[:: max(1, len(cases) // 400)] for tok in line.split()]:
+        if re.fullmatch(r'x(?:[0-9a-f]{2}){0,160}', c) and c not in seen:
+            seen.add(c)
+            sample.append(c)
+        if len(sample) >= limit:
+            break
+    lines, vs = [], ['From MQ Require Import Model.Digest.']
+    for i, hx in enumerate(sample):
+        fam = 'v3' if i % 2 == 0 else 'v5'
+        prof = 'Debug' if i % 4 < 2 else 'Release'
+        bs = '; '.join(str(int(hx[j:j + 2], 16)) for j in range(1, len(hx), 2))
+        vs.append('Eval vm_compute in (digest%s %s [%s]%%N).' % (fam[1], prof, bs))
+        lines.append((prof.lower(), 'digest %s %s' % (fam, hx)))
+    vpath = os.path.join(workdir, 'cases.v')
+    open(vpath, 'w').write('\n'.join(vs) + '\n')
+    rc, out = sh(['coqc', '-noglob', '-Q', os.path.join(COQ, 'theories'), 'MQ', vpath], cwd=workdir, timeout=900)
+    if rc != 0:
+        raise Broken('cases.v does not evaluate: ' + out[-1500:])
+    coq = [re.sub(r'\s+', '', m).replace('%N', '').replace(';', ',') for m in re.findall(r'=\s*\[(.*?)\]\s*:\s*list N', out, re.S)]
+    ocaml = []
+    for prof in ('debug', 'release'):
+        idx = [i for i, (p_, _) in enumerate(lines) if p_ == prof]
+        cp = os.path.join(workdir, 'xcheck.%s.cases' % prof)
+        op = os.path.join(workdir, 'xcheck.%s.out' % prof)
+        open(cp, 'w').write(''.join(lines[i][1] + '\n' for i in idx))
+        rc, o = sh([DRIVER, prof, cp, op], timeout=900)
+        if rc != 0:
+            raise Broken('driver failed on the cross-check cases: ' + o[-500:])
+        res = open(op).read().split('\n')[:-1]
+        ocaml += list(zip(idx, res))
+    ocaml = [r for _, r in sorted(ocaml)]
+    if len(coq) != len(sample) or len(ocaml) != len(sample):
+        raise Broken('extraction cross-check: %d Coq results, %d OCaml results for %d inputs' % (len(coq), len(ocaml), len(sample)))
+    for hx, a, b in zip(sample, coq, ocaml):
+        if a != b:
+            raise Broken('extraction cross-check: Coq vm_compute and the extracted OCaml disagree on %s: %s vs %s' % (hx, a, b))
+    return len(sample)
